@@ -187,7 +187,13 @@ def b_cast(ex, st, node, args, kw):
     return args[1]
 
 
-dict_sum = z3.Function("dict_sum", S.CSetS, S.RMapS, z3.RealSort())
+_dict_sum = z3.Function("dict_sum", S.CSetS, S.RMapS, z3.RealSort())
+
+
+def dict_sum(keys, vals):
+    """sum of a dict's values: an uninterpreted function of the key set and of the values RESTRICTED to the keys (what a dict is),
+    so that dicts that are equal as dicts -- same keys, same values on them -- have provably equal sums"""
+    return _dict_sum(keys, S.lam(lambda c: z3.If(keys[c], vals[c], z3.RealVal(0)), keys, vals))
 
 
 def b_sum(ex, st, node, args, kw):
@@ -319,6 +325,9 @@ def module_value(name):
     if name == "random":
         from .rng import RANDOM
         return VModule("random", RANDOM)
+    if name == "types":
+        # types.MappingProxyType(d): a read-only view of d; reading through it is reading d (A-LIB)
+        return VModule("types", {"MappingProxyType": VFunc("MappingProxyType", impl=lambda ex, st, node, args, kw: args[0])})
     return VModule(name, {})
 
 
